@@ -156,7 +156,12 @@ class ProxyIO:
     def read(self, nbytes: int) -> bytes:
         # TODO(typing): The IO protocol requires bytes here but ChannelFileRead
         # returns str.
-        return self.iochan_file.read(nbytes)  # type: ignore[return-value]
+        try:
+            return self.iochan_file.read(nbytes)  # type: ignore[return-value]
+        except self.iochan.RemoteError as e:
+            # the forwarder could not reach the sub any more (it reports that
+            # as an error on the proxy channel): the connection is lost
+            raise EOFError("proxied connection lost") from e
 
     def write(self, data: bytes) -> None:
         self.iochan.send(data)
@@ -212,7 +217,13 @@ def serve_proxy_io(proxy_channelX: Channel) -> None:
     # XXX writing might block, thus blocking the receiver thread
     def forward_to_sub(data: bytes) -> None:
         log("forward data to sub, size %s" % len(data))
-        sub_io.write(data)
+        try:
+            sub_io.write(data)
+        except (OSError, ValueError) as e:
+            # the sub is gone: the loop below sees its EOF after it has
+            # forwarded everything the sub had still written; an error on
+            # the proxy channel would overtake (and so lose) that data
+            log("could not forward data to sub: %s" % e)
 
     proxy_channelX.setcallback(forward_to_sub)
 
